@@ -84,7 +84,18 @@ def run_case(case):
                         exact = exact and ex
                         tab[x - 1][y - 1][k] = v
             return tab
-        rec["tabP"] = table(_impl["P"].pairwise_cost_matrix(ds.get_positions(), ss))
+        held = _impl["P"].pairwise_cost_matrix(ds.get_positions(), ss)
+        # the table is HELD while other tables of the same size are computed (the same elements ranked in the opposite
+        # order, another scheme): what was delivered must not change afterwards
+        try:
+            other = _impl["Dataset"].from_raw_list([list(reversed(r)) for r in am.raw_dataset(case["D"])])
+            ss2 = core.build_scheme([0, 3, 1, 2, 5, 7], [11, 11, 0, 13, 13, 17], 1)
+            _impl["P"].pairwise_cost_matrix(other.get_positions(), ss2)
+            _impl["P"].graph_of_elements(other.get_positions(), ss2)
+            _impl["P"].pairwise_cost_matrix(other.get_bucket_ids(), ss)
+        except Exception:
+            pass
+        rec["tabP"] = table(held)
         # the same table as handed over by the other entry points (graph builders), and from bucket ids
         t2 = table(_impl["P"].graph_of_elements(ds.get_positions(), ss)[1])
         t3 = table(_impl["P"].graph_of_elements_with_robust_arcs(ds.get_positions(), ss)[1])
@@ -141,7 +152,7 @@ def models(tier):
 
 
 def stages(tier, rng, only=None):
-    sch = ac.PRESET + PROBES + [m for s in (ac.P_UNI1, ac.P_PSE1, ac.P_IND1, ac.P_EXT) for m in ac.multiples(s, ks=(2,))]
+    sch = ac.PRESET + PROBES + ac.ONEHOT + [m for s in (ac.P_UNI1, ac.P_PSE1, ac.P_IND1, ac.P_EXT) for m in ac.multiples(s, ks=(2,))]
     nm = ["ints", "letters", "collide", "neg", "weird", "mixed1", "mixed3", "mixedraw"]
     out = [Stage("grid3x2", "Trace_Cost", run_case, lambda: _cases(grids.datasets(3, 2), sch, nm, True), _nt, _init)]
     n_rand = 500 if tier == "quick" else 5000
